@@ -212,6 +212,9 @@ func (w *World) flatten(v ssa.Value, recv ssa.Value, depth int) [][]Piece {
 			}
 			return ""
 		}
+		if pf, ei := w.parenFn(); pf != nil && com.StaticCallee() == pf {
+			return [][]Piece{{{kind: "paren", field: argField(ei), val: v}}}
+		}
 		switch name {
 		case "SQL":
 			var x0 ssa.Value
@@ -251,8 +254,6 @@ func (w *World) flatten(v ssa.Value, recv ssa.Value, depth int) [][]Piece {
 			return out
 		case "strIfElse":
 			return append(w.flatten(com.Args[1], recv, depth+1), w.flatten(com.Args[2], recv, depth+1)...)
-		case "paren":
-			return [][]Piece{{{kind: "paren", field: argField(1), val: v}}}
 		case "QuoteSQLIdent", "QuoteSQLString", "QuoteSQLBytes":
 			return [][]Piece{{{kind: "quote", field: argField(0), text: name, val: v}}}
 		}
